@@ -6,7 +6,9 @@ and never exceeds the limit, 1 for unconfigured names) over all schedules; Sched
 clauses recompute `held` from submit / finish events alone and compare Scheduler.limits_used against
 it after every step of the loop (used <= limit, used >= held, used >= 0; all units returned when a
 run returns).  Binding as for C09 (schedlab.suite); random schedules also run under other limit
-configurations.
+configurations.  A second trace source is the repository's own test-suite run with its real thread and
+process pools under a recording pytest plugin (harness/pytest_trace.py): every Scheduler.run it performs
+is validated against the same limits clauses.
 """
 
 from __future__ import annotations
@@ -61,6 +63,20 @@ def run(ctx: Ctx) -> None:
                "single scheduler thread; executor completions arrive as queue events in any order")
     schedlab.suite(ctx, ON, n_random_progs=ctx.pick(4, 30), n_sim=ctx.pick(80, 1500),
                    n_random_hist=ctx.pick(40, 800), alt_limits=True, corrupt=_corrupt, tag="c08")
+    # ---- the repository's own tests as a trace source: real thread / process pools -----------------
+    mods = ctx.pick(["test_limits.py"],
+                    ["test_limits.py", "test_scheduler.py", "test_errors.py", "test_handle.py", "test_context.py",
+                     "test_functools.py", "test_tasks.py", "test_partial_task.py"])
+    traces, stats = schedlab.suite_test_traces(ctx, mods, timeout=ctx.pick(600, 3000))
+    ctx.note("suite_traces", stats)
+    ctx.require(stats["judged"] >= ctx.pick(4, 150), f"too few executions recorded from the test-suite: {stats}")
+    verdicts = schedlab.validate(ctx, traces, ON, "suite")
+    for t, (acc, pos, why) in zip(traces, verdicts):
+        ctx.count_impl_trace()
+        if not acc:
+            ctx.violation(f"execution recorded from the repository's test {t['hdr']['test']} rejected by clause "
+                          f"'{why}' at event {pos}: {t['evs'][pos - 1] if pos - 1 < len(t['evs']) else None}",
+                          {"test": t["hdr"]["test"], "clause": why, "events": t["evs"]})
 
 
 def replay(ctx: Ctx, rec: dict) -> None:
